@@ -19,6 +19,104 @@ TH = Dim("Th", minimum=1)
 theta = sp.Function("theta", real=True)(TH.k)
 
 
+def polygon_bins(chk, ld):
+    """ConvexPolygon._distance_to_surface_from: the body of the loop over the edges, extracted mechanically from the current source
+    (Loader.extract_segment; everything before the loop -- alignment, arctan2 of the vertices, argmin / roll, slopes and intercepts --
+    is not under contract and stays with the bounded stand-in).  For one edge with end-point angles a_lo <= a_hi, line y = m x + b
+    (or x = x0), and an array of angles of symbolic length, the body must write, exactly for the angles of the edge's bin, the
+    distance from the origin to the edge's line along the angle:  d^2 (sin t - m cos t)^2 = b^2   (d^2 cos^2 t = x0^2 for a
+    vertical edge), in each of its three branches; all other entries of the output are left alone."""
+    import numpy as np
+    from pyvc import paths
+    from pyvc.sym import Sym
+    body, params, text, sha = ld.extract_segment("coxeter.shapes.convex_polygon", "ConvexPolygon._distance_to_surface_from",
+                                                 lambda t: t.startswith("for i in range(num_verts)"), loop_body=True)
+    fkey = chk.function("coxeter.shapes.convex_polygon", "ConvexPolygon._distance_to_surface_from")
+    chk.functions[fkey]["extraction"] = {"verified": "body of the loop `for i in range(num_verts)`, compiled unchanged as a function of its free variables "
+                                         + str(params), "kept_sha": sha, "dropped_statements": "all statements before and after that loop"}
+    th = make("theta", (TH,))
+    t = theta
+    S, C = sp.sin(t), sp.cos(t)
+    a0, a1, a2 = sp.symbols("ang0 ang1 ang2", real=True)
+    m, b, x0 = sp.symbols("slope intercept x0", real=True)
+    old = sp.Function("dist_before", real=True)(TH.k)
+    eps = sp.Rational(1, 10**6)
+    cases = {"general": (Sym(m), Sym(b)), "horizontal": (0, Sym(b)), "vertical": (float("inf"), float("inf"))}
+    for cname, (mv, bv) in cases.items():
+        for where, i in (("inner_bin", 1), ("last_bin", 2)):
+            def run(mv=mv, bv=bv, i=i):
+                env = {"angles": th, "angles_to_vertices": np.array([Sym(a0), Sym(a1), Sym(a2)], dtype=object),
+                       "angles_shifted": np.array([Sym(a1), Sym(a2), Sym(2 * sp.pi + eps)], dtype=object), "i": i, "num_verts": 3,
+                       "slopes": np.array([1.0, mv, mv], dtype=object), "y_int": np.array([1.0, bv, bv], dtype=object),
+                       "distances": SymArr((TH,), np.array(Sym(old), dtype=object)),
+                       "p1": np.array([[Sym(sp.Symbol(f"p{r}{c_}", real=True)) for c_ in range(3)] for r in range(3)], dtype=object)}
+                env["p1"][i, 0] = Sym(x0)
+                out = body(**{k: env[k] for k in params})
+                return out["distances"]
+            facts = TH.facts() + ([sp.Ne(m, 0)] if cname == "general" else [])
+            for p in chk.explore(fkey, run, assumptions=facts):
+                tag = f"{cname}/{where}:{path_tag(p)}"
+                if p.kind != "return":
+                    chk.path_raised(fkey, p) or chk.record(f"distance_to_surface.bin:returns[{tag}]", fkey, "refuted", "path-enumeration",
+                                                           detail=f"{type(p.exc).__name__}: {p.exc}"[:200], model={}, replay=_replay_bins(), abstracted=True)
+                    continue
+                res = p.value
+                e = to_expr(res.inner[()]) if isinstance(res, SymArr) and res.axes == (TH,) else None
+                ok = isinstance(e, sp.Piecewise) and len(e.args) == 2 and e.args[1][0] == old and e.args[1][1] is sp.true
+                chk.record(f"distance_to_surface.bin:writes_one_value_per_angle_of_the_bin_and_nothing_else[{tag}]", fkey, "proved" if ok else "refuted", "structure",
+                           detail="" if ok else str(e)[:200], model={}, replay=_replay_bins(), abstracted=True)
+                if not ok:
+                    continue
+                val, mask = e.args[0]
+                lo, hi = (a1, a2) if i == 1 else (a2, 2 * sp.pi + eps)
+                want = sp.And(sp.Ge(t, lo), sp.Lt(t, hi))
+                if i == 2:
+                    want = sp.Or(want, sp.And(sp.Ge(t, a2 - 2 * sp.pi), sp.Lt(t, a0)))
+                # the angles were reduced to [0, 2 pi) and the vertex angles are sorted in [0, 2 pi) before the loop (np.mod, argmin + roll of a
+                # counter-clockwise polygon about an interior point: prefix of the function, assumed); only what matters on that domain is demanded
+                dom = [sp.Ge(t, 0), sp.Lt(t, 2 * sp.pi), sp.Ge(a0, 0), sp.Le(a0, a1), sp.Le(a1, a2), sp.Lt(a2, 2 * sp.pi)]
+                chk.prove(f"distance_to_surface.bin:bin_is_the_angular_range_of_the_edge[{tag}]", fkey, list(p.pc) + dom, sp.Equivalent(mask, want),
+                          replay=_replay_bins())
+                d2 = sp.together(val**2) if not (val.is_Pow and val.exp == sp.Rational(1, 2)) else val.base
+                d2 = d2.replace(lambda z: isinstance(z, sp.tan), lambda z: sp.sin(z.args[0]) / sp.cos(z.args[0]))
+                if cname == "vertical":
+                    goal = sp.together(d2 * C**2 - x0**2)
+                else:
+                    mm = m if cname == "general" else sp.Integer(0)
+                    goal = sp.together(d2 * (S - mm * C)**2 - b**2)
+                num = sp.expand(sp.numer(goal))
+                num = sp.expand(num.subs(S**2, 1 - C**2))
+                num = sp.expand(sp.rem(num, S**2 + C**2 - 1, S)) if num != 0 else num
+                chk.record(f"distance_to_surface.bin:value_is_the_distance_to_the_edges_line_along_the_angle[{tag}]", fkey, "proved" if num == 0 else "refuted",
+                           "sympy-trig-normal-form", detail=("d^2 (sin t - m cos t)^2 == b^2" if cname != "vertical" else "d^2 cos^2 t == x0^2") if num == 0 else f"remainder {str(num)[:200]}",
+                           model={}, replay=_replay_bins(), abstracted=True)
+
+
+def _replay_bins():
+    """real ConvexPolygon.distance_to_surface on polygons with horizontal, vertical and slanted edges against exact ray casting"""
+    def replay(model):
+        import math
+        import numpy as np
+        from .bounded_c14 import ray_polygon
+        from .common import real_coxeter
+        from bounded import oracle
+        cox = real_coxeter()
+        for P in ([(0.0, 0.0), (4.0, 0.0), (4.0, 3.0), (0.0, 3.0)], [(0.3, -0.4), (4.7, -0.4), (0.7, 2.6)], [(0.0, 0.0), (3.0, 1.0), (2.0, 3.0), (-1.0, 2.5)]):
+            _, (cx, cy), _, _, _ = oracle.polygon_measures_2d(P)
+            c = (float(cx), float(cy))
+            ang = np.linspace(-7.0, 7.0, 141)
+            try:
+                got = np.asarray(cox.shapes.ConvexPolygon([[x, y, 0.0] for x, y in P]).distance_to_surface(ang.copy()), float)
+            except Exception as e:  # noqa: BLE001
+                return True, {"vertices": P, "raised": f"{type(e).__name__}: {e}"[:200]}
+            for th_, g in zip(ang, got):
+                want = ray_polygon(c, th_, P)
+                if not abs(g - want) <= 1e-7 * max(1.0, want):
+                    return True, {"vertices": P, "angle": float(th_), "distance_to_surface": float(g), "exact_distance_from_centroid": float(want)}
+        return False, {}
+    return replay
+
+
 def run(chk):
     ld = chk.loader()
     shapes = ld.load("coxeter.shapes")
@@ -57,5 +155,7 @@ def run(chk):
                     chk.prove(f"{cls}.distance_to_surface:positive[{t}]", fkey, p.pc, sp.Gt(d, 0))
     finally:
         oblig.RELATIONS[:] = []
+    chk.section("ConvexPolygon.distance_to_surface:angle_bins", "coxeter.shapes.convex_polygon::ConvexPolygon._distance_to_surface_from",
+                lambda: polygon_bins(chk, ld))
     from .bounded_c14 import run_bounded
     run_bounded(chk)
